@@ -13,8 +13,8 @@ from . import tlc, replay
 
 VERIF = tlc.VERIF
 WORK = tlc.WORK
-REPLAYS = os.path.join(VERIF, "replays")
-EVIDENCE = os.path.join(VERIF, "evidence")
+REPLAYS = os.environ.get("VERIF_REPLAY_DIR") or os.path.join(VERIF, "replays")
+EVIDENCE = os.environ.get("VERIF_EVIDENCE_DIR") or os.path.join(VERIF, "evidence")
 REPO = os.environ.get("YLDPROLOG_REPO", "/repo")
 
 
